@@ -1,5 +1,5 @@
 #![allow(dead_code)]
-mod vocab; mod tree; mod val; mod call; mod render; mod refsem; mod expect; mod engine; mod meta; mod agg; mod loops; mod history; mod conv; mod fclass; mod functions;
+mod vocab; mod tree; mod val; mod call; mod render; mod refsem; mod expect; mod engine; mod meta; mod agg; mod loops; mod history; mod conv; mod fclass; mod functions; mod cross;
 
 use engine::*;
 use serde_json::{json, Value};
@@ -103,6 +103,43 @@ fn run_replay(job: &Value) {
             if extras.iter().any(|x| x == "spellings") { meta::spellings(&mut out, &v, &e, &b, r, outs, &pols[k.min(pols.len() - 1)], &mut rng, thorough); }
             if extras.iter().any(|x| x == "ans") { meta::placeholder_as_constant(&mut out, &e, &b, r, outs); }
             if extras.iter().any(|x| x == "subst") && k == 0 { meta::substitution(&mut out, &v, &e, &b, r, &samples, &pols[0]); }
+        }
+    }
+    out.heartbeat(u64::MAX);
+    write_stats(job, &mut out, true);
+}
+
+/// C15: one rendering, two evaluators (harness/src/cross.rs)
+fn run_cross(job: &Value) {
+    let v = vocab::Vocab::load(job["vocab"].as_str().unwrap());
+    let pair = job["pair"].as_str().unwrap().to_string();
+    let shard = job["shard"].as_u64().unwrap_or(0);
+    let nshards = job["nshards"].as_u64().unwrap_or(1);
+    let start = job["start"].as_u64().unwrap_or(0);
+    let max_assign = job["max_assign"].as_u64().unwrap_or(64) as usize;
+    let n = job["samples_per_pair"].as_u64().unwrap_or(200) as usize;
+    let mut out = open_out(job, profile_name());
+    let mut rng = Rng(job["seed"].as_u64().unwrap_or(1).wrapping_mul(0x9E3779B97F4A7C15) ^ (shard + 1315));
+    if pair == "cpx-f64-ops" {
+        out.heartbeat(0);
+        cross::cpx_f64_operators(&mut out, &mut rng, n);
+    } else {
+        let file = std::io::BufReader::new(std::fs::File::open(job["beh"].as_str().unwrap()).unwrap());
+        for (i, line) in file.lines().enumerate() {
+            let i = i as u64;
+            if i % nshards != shard || i < start { continue; }
+            let bv: Value = match serde_json::from_str(&line.unwrap()) { Ok(x) => x, Err(_) => continue };
+            out.heartbeat(i);
+            out.stats.items += 1;
+            if pair == "cpx-f64" { cross::cpx_f64_item(&mut out, &v, &bv, &mut rng, n); continue; }
+            if pair == "num-f64-vocab" { cross::num_f64_item(&mut out, &bv); continue; }
+            let b = parse_beh(&bv);
+            match pair.as_str() {
+                "i64-num" => cross::i64_num(&mut out, &v, &b, &mut rng, max_assign),
+                "num-f64" => { cross::num_f64(&mut out, &v, &b, &mut rng, max_assign, false); cross::num_f64(&mut out, &v, &b, &mut rng, (max_assign / 4).max(1), true); }
+                "dec-f64" => cross::dec_f64(&mut out, &v, &b, &mut rng, max_assign),
+                _ => {}
+            }
         }
     }
     out.heartbeat(u64::MAX);
@@ -243,6 +280,7 @@ fn main() {
             "replay" => run_replay(&job),
             "selftest" => run_selftest(&job),
             "agg" => run_agg(&job),
+            "cross" => run_cross(&job),
             "corpus" => run_corpus(&job),
             "conv" => { let mut out = open_out(&job, profile_name()); conv::run_conv(&mut out, job["seed"].as_u64().unwrap_or(1), job["random"].as_u64().unwrap_or(100000)); out.heartbeat(u64::MAX); write_stats(&job, &mut out, true); }
             "literals" => { let mut out = open_out(&job, profile_name()); conv::run_literals(&mut out, job["seed"].as_u64().unwrap_or(1), job["random"].as_u64().unwrap_or(2000), job["maxlen"].as_u64().unwrap_or(5) as usize); out.heartbeat(u64::MAX); write_stats(&job, &mut out, true); }
